@@ -34,6 +34,7 @@ Environment (all optional):
                      "submit_by_prefix" / "reports_by_prefix": {step template: [...]}  # for every instance of it
                      "default": "FINISHED",
                      "faults": [{"call": "submit", "n": 2, "exc": "OSError"}],   # optional: that call raises
+                     "reap_tmp": true,                 # optional: every check_jobs call first removes the --usetmp script dir
                      "after_cancel": "CANCELLED",      # optional: what jobs given to cancel_jobs report from then on
                      "qcodes":  ["OK", ...]}           # per check_jobs call, last repeats (default OK)
                   The log also receives {"call": "poll", "k": k} at every POLL sleep and, per write_script
@@ -161,6 +162,11 @@ def _register_scripted(path):
 
         def write_script(self, ws_path, step):
             fault("write_script", step.name)
+            import tempfile
+            troot = os.path.realpath(tempfile.gettempdir())
+            if os.path.realpath(ws_path).startswith(troot + os.sep):
+                # --usetmp: <mkdtemp>/<md5 of the instance name>; remember the mkdtemp directory
+                st.setdefault("tmp_roots", set()).add(os.path.dirname(os.path.realpath(ws_path)))
             script = os.path.join(ws_path, "%s.scripted.sh" % step.name)
             with open(script, "w") as f:
                 f.write("#!%s\n\n%s\n" % (self._exec, step.run["cmd"]))
@@ -198,6 +204,13 @@ def _register_scripted(path):
 
         def check_jobs(self, joblist):
             fault("check_jobs")
+            if cfg.get("reap_tmp") and st.get("tmp_roots"):
+                # a /tmp reaper: the temporary script directory disappears while jobs are in flight
+                gone = [d for d in sorted(st["tmp_roots"]) if os.path.isdir(d)]
+                for d in gone:
+                    shutil.rmtree(d, ignore_errors=True)
+                if gone:
+                    rec({"call": "reap", "dirs": gone})
             qs = cfg.get("qcodes") or ["OK"]
             q = qs[min(st["nq"], len(qs) - 1)]
             st["nq"] += 1
